@@ -213,14 +213,15 @@ class Snapshot(Part):
     name = 'snapshot'
     chunk = 1
     timeout = 600.0
-    nproc = 8
+    nproc = 3
 
     def __init__(self, tier='quick'):
         self.tier = tier
 
     def describe(self, tier):
         return ('smib and kundur_full: save_ss at the split, load_ss and continue; split times = event lattice + every 4th step '
-                'boundary + an off-grid time; same process for all, fresh interpreter for the event lattice')
+                'boundary + an off-grid time; same process for all, fresh interpreter for the event lattice (quick tier: lattice of the '
+                'first event only, two boundaries, one fresh-interpreter case per system)')
 
     def cases(self, tier):
         out = []
@@ -230,9 +231,18 @@ class Snapshot(Part):
             ss, ev = build(name)
             lattice = [p for p in pts if any(abs(p - e) < 2 * EPS for e in ev)]
             others = [p for i, p in enumerate(pts) if p not in lattice][::4] + [0.3777]
+            if tier == 'quick':
+                # pickling a System in a forked worker is slow here (copy-on-write faults on every touched object, ~10 s per
+                # case): the quick tier keeps the lattice around the FIRST event, two step boundaries and the off-grid time
+                first = min(ev)
+                lattice = [p for p in lattice if abs(p - first) < 2 * EPS]
+                others = others[:2] + [0.3777]
+                if name == 'kundur':
+                    lattice = lattice[::2]
+                    others = [0.3777]
             for p in sorted(set(lattice + others)):
                 out.append(dict(sys=name, split=p, fresh=False))
-            for p in (lattice if tier != 'quick' else lattice[:3]):
+            for p in (lattice if tier != 'quick' else lattice[:1]):
                 out.append(dict(sys=name, split=p, fresh=True))
         return out
 
